@@ -55,7 +55,7 @@ CHECKS = {
         design="8/C12"),
     "C13": dict(
         technique="Coq theorem: admission decision = specification predicate; differential of the real handleInboundConn on fake connections + extracted oracle",
-        text="c13_admit_iff: a connection is handed to a peer iff its source is a configured remote address and, when that peer has a local address, the destination equals it; otherwise refused. The real handleInboundConn runs on fake net.Conns recording Close/Write: refused connections see exactly one Close and no Write.",
+        text="c13_accepted_iff: a connection is handed to a peer iff its source is a configured remote address and, when that peer has a local address, the destination equals it; otherwise refused. The real handleInboundConn runs on fake net.Conns recording Close/Write: refused connections see exactly one Close and no Write.",
         note="Peer side: c13_busy (closure proof: a refused connection changes nothing in the manager); live Admit scenarios (unknown source, wrong local address, second inbound, while Established, while held down) judge silent close and the untouched existing session. Address string forms are a trusted abstraction.",
         design="8/C13"),
     "C20": dict(
